@@ -7,7 +7,7 @@ from typing import Any
 
 from harness import c02_util as U
 from harness.common import VERIF, Ck, coq_list, coq_str, parse_coq_N_list, parse_coq_nested
-from translate import c02_tables
+from translate import c02_hstring, c02_tables
 
 MANIFEST = dict(
     technique='Rocq proof generic over the escape tables (induction over the string; tables AND the shape of escape_text regenerated '
@@ -272,6 +272,53 @@ def model_counterexamples(ck: Ck) -> None:
                 report(ck, s, ml, r)
 
 
+HS_IMPORTS = U.IMPORTS + ['SV.Text.HsTable', 'SV.Text.HsGen']
+_HS_CLASS = ['DQ', 'CR', 'LF', 'backslash', 'end-of-input', 'other']
+_HS_SECOND = ['-', 'end-of-input', 'LF', 'key-of-ESCAPES', 'other']
+
+
+def translate_hstring(ck: Ck) -> bool:
+    """Gen/HsRows_gen.v: the decision table of Tokenizer._handle_string. When the translator fails closed an EMPTY table is
+    written, so that everything else still builds and is evaluated (the hand model's correspondences in particular)."""
+    ok = ck.translate('HsRows_gen', c02_hstring.translate)
+    if not ok:
+        ck.gen('HsRows_gen', c02_hstring.EMPTY_GEN, {'failed_closed': True})
+    return ok
+
+
+def handle_string_table(ck: Ck, translated: bool) -> None:
+    """Instance obligations about the table read from _handle_string; when the rows differ from the model's, the differing rows
+    and (small scope, inside Coq) texts on which the code's table and the hand model differ are reported, and each such text
+    is run on the implementation."""
+    if not translated:
+        return          # translate:HsRows_gen is already a failed obligation; the empty table carries no information
+    res = ck.instance_obligations(HS_IMPORTS, {
+        'handle_string_rows_are_the_model': 'handle_string_rows_are_the_model',
+        'handle_string_flag_starts_false': 'handle_string_flag_starts_false',
+    }, name='hsinst')
+    ck.count('handle_string_table_rows', ck.extra.get('translated', {}).get('HsRows_gen', {}).get('rows', 0))
+    if all(res.values()):
+        return
+    ck.tie_broken.append('the decision table read from Tokenizer._handle_string is not the table of the model Text/Tokenizer.v handle_string')
+    alpha = U.coq_chars(ord(c) for c in ESC_ALPHA)
+    vals = ck.coq_eval(HS_IMPORTS, ['handle_string_rows_diff', f'hs_table_witnesses {alpha} 3'], name='hsdiff', preamble=U.PRE)
+    if vals is None:
+        return
+    rows = []
+    for k, fl, ae, e, got, want in parse_coq_nested(vals[0]):      # Coq prints left-nested pairs flat
+        rows.append({'char': _HS_CLASS[k], 'last_was_cr': bool(fl), 'allow_escapes': bool(ae), 'second': _HS_SECOND[e],
+                     'source (reads second, line increments, new flag, appends, end)': got, 'model': want})
+    wit = []
+    for bits, w, a, b in parse_coq_nested(vals[1])[:5]:
+        text = '"' + ''.join(map(chr, w))
+        impl = U.impl_results(text, bits, 1)
+        wit.append({'text': text, 'option_bits': bits, 'table_of_the_source': U.decode_results(list(a)[:-1]), 'hand_model': U.decode_results(list(b)[:-1]),
+                    'implementation': U.decode_results(impl), 'implementation_follows_the_table': impl == list(a)[:-1]})
+    ck.extra['handle_string_table'] = {'differing_rows': rows[:12], 'witness_texts': wit}
+    ck.notes.append(f'_handle_string: {len(rows)} rows differ from the model, first: {rows[0] if rows else None}; '
+                    f'first text on which the table and the model differ: {wit[0] if wit else "none up to length 3"}')
+
+
 def corr_codepoints(ck: Ck) -> None:
     """escape_text vs Escape.esc_char on EVERY code point, both modes."""
     from srctools.tokenizer import escape_text
@@ -438,11 +485,12 @@ def run(ck: Ck) -> None:
     ck.assumptions.append('Python str = list of code points; re.sub over an alternation of single characters acts per character (exercised by the string correspondence)')
     ck.assumptions.append('pure-Python tokenizer only; the Cython twin _tokenizer.pyx cannot be built in this sandbox')
     ok_t = ck.translate('EscTables_gen', c02_tables.translate)
+    ok_h = translate_hstring(ck)
     side = ck.extra.get('translated', {}).get('EscTables_gen', {})
     escalate = bool(side) and any(side.get('digests', {}).get(k) != v for k, v in c02_tables.MODEL_DIGESTS.items())
     if escalate:
         ck.notes.append('hand-modelled tokenizer functions changed since the model was written: correspondence budgets escalated')
-    built = ok_t and ck.build(['Props/C02.vo', 'Text/TokEnum.vo'])
+    built = ok_t and ck.build(['Props/C02.vo', 'Text/TokEnum.vo', 'Text/HsGen.vo'])
     if built:
         ck.theorems('Props/C02.v')
         ck.instance_obligations(U.IMPORTS, {
@@ -463,6 +511,7 @@ def run(ck: Ck) -> None:
             'token_enum_values_distinct': 'token_values_distinct',
             'operators_name_known_tokens': 'operators_all_known',
         })
+        handle_string_table(ck, ok_h)
         model_counterexamples(ck)
         corr_codepoints(ck)
         corr_escape_strings(ck, escalate)
